@@ -4,7 +4,7 @@ from . import ctrl, twin
 OWNED = ["C08."]
 REQUIRED = [
     "C08.trial_steps_identical", "C08.second_run_makes_no_trial_the_reference_did_not", "C08.result_is_reference_state_at_that_moment.x", "C08.result_is_reference_state_at_that_moment.y",
-    "C08.result_is_reference_state_at_that_moment.d", "C08.counters_consistent", "C08.budget_k_means_exactly_k_trials", "C08.early_stop_status_is_a_limit", "C08.no_rejected_point_in_result", "C08.result_is_an_announced_accepted_point", "C08.accepted_count_matches_announcements", "C08.deadline_inside_newton_loop_only_after_deadline",
+    "C08.result_is_reference_state_at_that_moment.d", "C08.counters_consistent", "C08.budget_k_means_exactly_k_trials", "C08.early_stop_status_is_a_limit", "C08.no_rejected_point_in_result", "C08.result_is_an_announced_accepted_point", "C08.accepted_count_matches_announcements", "C08.deadline_inside_newton_loop_only_after_deadline", "C08.deadline_inside_step_computation_yields_no_step",
 ]
 META = dict(
     functions_encoded=twin.FUNCTIONS + ["(deadline inside the Newton loop) " + f for f in ctrl.FUNCTIONS[:3]],
